@@ -168,6 +168,8 @@ def strip_sites(tm):
         return ("elem", strip_sites(tm[1]), tm[3] if len(tm) > 3 else 0)
     if tag == "unknown":
         return ("unknown",)
+    if tag == "comp":
+        return ("comp", tm[1], strip_sites(tm[2]), strip_sites(tm[3]))
     if tag == "closure":
         return ("closure", tm[1])
     return tuple(strip_sites(x) for x in tm)
